@@ -1,8 +1,9 @@
 (* Extraction for the `files` cluster (C14, C15). ExtrOcamlBasic only. *)
 From Coq Require Import Extraction ExtrOcamlBasic ZArith NArith.
-From LV Require Import Model.Envelope Model.Routing.
+From LV Require Import Model.Envelope Model.Routing Model.CatalogueCodec.
 Extraction Language OCaml.
 Separate Extraction
   BinInt.Z.add BinInt.Z.compare BinNat.N.add
   Envelope.store Envelope.load
-  Routing.sanitize_table_name Routing.partition_filename Routing.subpartition Routing.route_key.
+  Routing.sanitize_table_name Routing.partition_filename Routing.subpartition Routing.route_key
+  CatalogueCodec.serialize CatalogueCodec.deserialize.
